@@ -905,7 +905,7 @@ def sizes_for(M, maxc, maxr):
     return [(c, r) for c in range(1, maxc + 1) for r in range(1, maxr + 1)]
 
 
-def run_tree(expr, enc, mode, maxc, maxr, tallies, single=False, stats=None):
+def run_tree(expr, enc, mode, maxc, maxr, tallies, single=False, stats=None, both_focus=True):
     """All sizes x focus for one tree under one encoding (must be called with the encoding set).
     `tallies`: clause -> Tally (+ AUX); when `single` (depth-3) the clauses go to tallies['d3'], first failing clause."""
     stats = stats if stats is not None else {}
@@ -943,8 +943,10 @@ def run_tree(expr, enc, mode, maxc, maxr, tallies, single=False, stats=None):
                     tallies[AUX].case(not bad, lambda: detail(expr, enc, PROBE[M], focus, bad[0][0], f"[{ill}] {bad[0][1]}", obs), True, {"expr": expr, "enc": enc, "mode": M})  # noqa: B023
             continue
         bump("wellformed_tree_modes")
+        # quick tier: focus=True only where it can matter to geometry (a selectable widget in the tree)
+        foci = (False, True) if both_focus or w.selectable() else (False,)
         for size in sizes_for(M, maxc, maxr):
-            for focus in (False, True):
+            for focus in foci:
                 CanvasCache.clear()
                 res, obs = judge(code, mode, size, focus)
                 sample = {"expr": expr, "enc": enc, "size": list(size), "focus": focus}
@@ -958,14 +960,14 @@ def run_tree(expr, enc, mode, maxc, maxr, tallies, single=False, stats=None):
 
 
 def _task(args):
-    kind, ei, exprs, maxc, maxr = args
+    kind, ei, exprs, maxc, maxr, both_focus = args
     enc, mode = ENCODINGS[ei]
     stats = {}
     tallies = {c: Tally() for c in (*CLAUSES, AUX, "d3")}
 
     def body():
         for e in exprs:
-            run_tree(e, enc, mode, maxc, maxr, tallies, single=(kind == "d3"), stats=stats)
+            run_tree(e, enc, mode, maxc, maxr, tallies, single=(kind == "d3"), stats=stats, both_focus=both_focus)
 
     _with_encoding(enc, body)
     return kind, tallies, stats
@@ -999,11 +1001,11 @@ def _plan(tier, seed):
                 step = 40 if kind == "d1" else 12
                 sz = leaf_sz if kind == "d1" else nest_sz
                 for i in range(0, len(exprs), step):
-                    tasks.append((kind, ei, exprs[i : i + step], *sz))
+                    tasks.append((kind, ei, exprs[i : i + step], *sz, tier != "quick"))
         d3 = depth3_sample(enc, mode, tier, seed * 10 + ei, n3)
         counts["d3"] += len(d3)
         for i in range(0, len(d3), 8):
-            tasks.append(("d3", ei, d3[i : i + 8], *nest_sz))
+            tasks.append(("d3", ei, d3[i : i + 8], *nest_sz, tier != "quick"))
     return tasks, counts, fams, (leaf_sz, nest_sz, n3, stride)
 
 
@@ -1032,7 +1034,7 @@ def run(tier="quick", seed=0):
         f"(every decoration/container family {', '.join(sorted(fams['d2']))} over {len(child_pool('utf8', not quick))} representative children; "
         f"{'covering option sets (every option value, every pair of the two main options)' if quick else 'full products of the option sets on the core children, covering sets on the rest'}, see `decorations`/`containers`), "
         f"counted per encoding and summed over utf-8, euc-jp, iso8859-1{f' (the big families {BIG}: every {stride}rd tree in the two non-UTF-8 encodings)' if stride > 1 else ''}; "
-        f"sizes: fixed (), flow 1..{leaf_sz[0]}, box 1..{leaf_sz[0]} x 1..{leaf_sz[1]} for leaves, flow 1..{nest_sz[0]}, box 1..{nest_sz[0]} x 1..{nest_sz[1]} for nested trees, among the modes sizing() reports; both focus values; "
+        f"sizes: fixed (), flow 1..{leaf_sz[0]}, box 1..{leaf_sz[0]} x 1..{leaf_sz[1]} for leaves, flow 1..{nest_sz[0]}, box 1..{nest_sz[0]} x 1..{nest_sz[1]} for nested trees, among the modes sizing() reports; {'focus False, and True for trees with a selectable widget' if quick else 'both focus values'}; "
         f"fresh widget per evaluation; judged: the {stats.get('wellformed_tree_modes', 0)} (tree, encoding, mode) triples that are well-formed (every child asked only for modes it reports, per urwid's documentation), "
         f"{stats.get('illformed_tree_modes', 0)} reported-but-ill-formed triples go to the auxiliary check; {stats.get('unbuildable', 0)} expressions refused by a constructor and skipped"
     )
